@@ -100,6 +100,14 @@ CHECKS = {
              'python_types, python_type_stubs and js_types output must coincide for all layouts of the same definitions.',
         ref='3.3, 4 (C11)',
         note=TRUST + ' Comment/blank-line/continuation layout and stdin delivery are not yet covered by this check (see DESIGN).'),
+    'C12': dict(
+        technique='TLA+ spec StoneRuns (process histories) enumerated by TLC; each history executed in a real process; the recorded log validated against the specification by TLC (StoneRunsTrace, total verdicts)',
+        text='TLC enumerates process histories: hash seed x {fresh, after the same backend on another spec, after another backend on the same '
+             'spec} x output directory x 17 backend rows x 2 spec sets. Every history is executed in its own process with PYTHONHASHSEED '
+             'set; each run logs a digest over relative paths and bytes of the files written. The log (ndjson) is read back by TLC: '
+             'StoneRunsTrace reconstructs Generate as memo[backend row, spec set] and an event whose digest differs cannot be explained; '
+             'failing events are collected (total verdict) and reported through a POSTCONDITION.',
+        ref='3.11, 4 (C12)'),
     'C13': dict(
         technique='TLA+ spec StoneAnnotMC (permission- and redaction-aware Enc/Dec) model-checked by TLC; every state replayed through json_encode/json_decode',
         text='TLC explores every (24 schema variants placing Omitted/RedactedBlot/RedactedHash on struct fields, inherited, patched and '
